@@ -541,19 +541,23 @@ def check_iqpe(case, acc):
             acc.ev()
             acc.transitions += len(trace)
             nd = sum(1 for t in trace if t[2] == "np.random.random")
-            nf = sum(1 for t in trace if t[2] == "sample_state_vector")
-            if nd != shots * (m + 1) or nf != shots or nd + nf != len(trace):
-                bad("draw-structure", {"random": nd, "final": nf, "labels": [t[2] for t in trace][:12]})
-            # every measured bit (the very first measurement of the ancilla in |0> is discarded by the solver)
-            per_shot = [out["probs"][i * (m + 1):(i + 1) * (m + 1)] for i in range(shots)]
-            for sh in per_shot:
-                bits = "".join(b for b, _ in sh[1:])
-                if sh and sh[0][0] != "0":
-                    bad("initial-ancilla-measurement-not-0", {"choices": choices})
-                if bits != want[::-1]:
-                    bad("measured-bit-differs", {"measured_lsb_first": bits, "expected_lsb_first": want[::-1], "choices": choices,
-                                                 "grid": [(c + seams.GRID_OFFSET) / K for (_, c, l) in trace if l == "np.random.random"]})
+            grid = [(c + seams.GRID_OFFSET) / K for (_, c, lab) in trace if lab == "np.random.random"]
+            # every measured bit, as recorded by the solver's own classical control (one string per shot, least significant bit
+            # first) and - when the draws have the layout "1 discarded measurement of the fresh ancilla + m bits" per shot - as
+            # returned by the backend's measurement routine
+            for sh_bits in out["meas"][:shots]:
+                if sh_bits != want[::-1]:
+                    bad("measured-bit-differs", {"measured_lsb_first": sh_bits, "expected_lsb_first": want[::-1], "choices": choices,
+                                                 "grid": grid})
                     break
+            if nd == shots * (m + 1) and len(out["probs"]) == nd:
+                acc.count("iqpe_backend_level_bit_checks")
+                for i in range(shots):
+                    sh = out["probs"][i * (m + 1):(i + 1) * (m + 1)]
+                    if "".join(b for b, _ in sh[1:]) != want[::-1] or sh[0][0] != "0":
+                        bad("measured-bit-differs", {"backend_outcomes": "".join(b for b, _ in sh), "expected_lsb_first": "0" + want[::-1],
+                                                     "choices": choices, "grid": grid})
+                        break
             worst = max([abs(p - 1) for _, p in out["probs"]] + [0.0])
             if worst > TOL:
                 bad("branch-probability-not-0-or-1", {"probabilities": [p for _, p in out["probs"]], "choices": choices})
@@ -614,7 +618,7 @@ def trotter_variants(tier, level, m):
     else:
         out = [(1, 1, "time", "neg2pi", "builtin"), (2, 1, "repeat", "unit", "builtin")]
         if tier == "thorough" and m <= 2:
-            out += [(4, 1, "repeat", "neg2pi", "builtin"), (1, 2, "time", "pos2pi", "object")]
+            out += [(4, 1, "repeat", "neg2pi", "builtin")]
     return out
 
 
@@ -633,6 +637,8 @@ def pe_cases(tier, seed, level):
                     continue                      # eigenvalue 0 whatever the scale
                 if restricted and (fam, st) not in (("NUM", "11"), ("XXZZ", "phi+"), ("XXYY", "phi-"), ("Z", "1")):
                     continue
+                if restricted and m == 3 and (fam, st) == ("XXYY", "phi-"):
+                    continue                      # (16*2)^2 executions per case: one entangled family is kept at m = 3
                 single = fam in ("Z", "ZZ") or (fam == "NUM" and st != "00")
                 # total phase = k/2^m + wind; a single-term Hamiltonian with total phase 0 would be the empty operator
                 # (outside the statement), so k = 0 is reached through one full turn there
@@ -656,7 +662,7 @@ def pe_cases(tier, seed, level):
         # ---- user circuits through CircuitUnitary
         for shape, (n, states, var_ok) in SHAPES.items():
             for st in states:
-                if restricted and shape not in ("TOF", "BELL", "RZ1"):
+                if restricted and shape not in (("TOF", "RZ1") if m == 3 else ("TOF", "BELL", "RZ1")):
                     continue
                 for ctl in ("all", "variational"):
                     if ctl == "variational" and not var_ok:
@@ -674,7 +680,7 @@ def pe_cases(tier, seed, level):
         for c in out:
             c["n_shots"] = shots
             if shots == 1:
-                c["K"] = {1: 4, 2: 3, 3: 2}[c["m"]] if tier == "quick" else {1: 8, 2: 4, 3: 2}[c["m"]]
+                c["K"] = {1: 4, 2: 2, 3: 2}[c["m"]] if tier == "quick" else {1: 8, 2: 3, 3: 2}[c["m"]]
             else:
                 c["K"] = 2
     return out
@@ -691,12 +697,12 @@ def bounds(tier, seed):
             "iqpe_2shot_cases": len(pe_cases(tier, seed, "iqpe2")), "register_sizes": [1, 2, 3],
             "families": {k: v[1] for k, v in FAMILIES.items()}, "circuit_shapes": {k: v[1] for k, v in SHAPES.items()},
             "amplitude_alphabet": [str(e) for e in ENTRIES], "generic_coefficient": 0.3 + runner.seed_delta(seed),
-            "grid_K": "1 shot: quick 4/3/2, thorough 8/4/2 for m=1/2/3; 2 shots: 2"}
+            "grid_K": "1 shot: quick 4/2/2, thorough 8/3/2 for m=1/2/3; 2 shots: 2"}
 
 
 def shards(tier, seed):
     sh = []
-    for kind, n in (("iqpe2", N_IQ2), ("iqpe1", N_IQ1), ("qpe", N_QPE), ("sv", N_SV), ("qft", N_QFT)):
+    for kind, n in (("iter2", N_IQ2), ("iter1", N_IQ1), ("exactpe", N_QPE), ("sv", N_SV), ("qft", N_QFT)):
         for i in range(n):
             sh.append({"kind": kind, "part": i, "of": n, "tier": tier, "seed": seed})
     return sh
@@ -745,7 +751,7 @@ def run_shard(sh):
                 check_sv(c, acc)
         if part == 0:
             acc.sample(cases[700], cap=1)
-    elif kind == "qpe":
+    elif kind == "exactpe":
         cases = pe_cases(tier, seed, "qpe")
         for c in deal(cases, part, of):
             acc.states += 1
@@ -754,7 +760,7 @@ def run_shard(sh):
         if part == 0:
             acc.sample(cases[len(cases) // 3], cap=1)
     else:
-        cases = pe_cases(tier, seed, kind)
+        cases = pe_cases(tier, seed, {"iter1": "iqpe1", "iter2": "iqpe2"}[kind])
         for c in deal(cases, part, of):
             check_iqpe(c, acc)
         if part == 0:
